@@ -69,6 +69,11 @@ def scenarios(rng):
         out.append(('sig_vanishing_moments', lambda: ss.sig_constrained_relaxation(f3, g3, [], None, form='dual', p=0, q=1, ell=1), 'sig', f3, g3, []))
         X3 = ss.infer_domain(f3, g3, [])
         out.append(('sig_vanishing_moments_X', lambda: ss.sig_relaxation(f3, X3, form='dual', ell=1), 'sig', f3, [], []))
+        # a Lagrangian term with a VARIABLE coefficient whose AGE cone is trivial after the presolve (x1^2 is shared by the objective and the second
+        # constraint; empty cover): its mu/v candidate is an ordinary candidate, every returned point is a point (no NaN), feasible and ordered
+        f4 = y[0] ** 2 + y[1] ** 2 - y[0] - 3 * y[1] + y[0] ** 3
+        g4 = [4 - y[0] ** 2, 1 - y[1] ** 2]
+        out.append(('sig_trivial_age_cone_variable_coeff', lambda: ss.sig_constrained_relaxation(f4, g4, [], X=None, form='dual', p=0, q=1, ell=0), 'sig', f4, g4, []))
         x = so.standard_poly_monomials(2)
         p = (x[0] - 1) ** 2 + (x[1] + 0.5 * rng.choice([1, 2])) ** 2 + x[0] * x[1]
         pg = [4 - x[0] ** 2 - x[1] ** 2]
